@@ -472,8 +472,8 @@ def run_shard(shard, tier) -> Stats:
     d = depths(tier)
     if shard[0] == "tree":
         depth = d["tree"]
-        if tier == "thorough" and shard[1] % 4:
-            depth -= 1          # depth 4 for every 4th profile (9 of 36), depth 3 for the others
+        if tier == "thorough" and shard[1] % 6:
+            depth -= 1          # depth 4 for every 6th profile (6 of 36), depth 3 for the others
         run_tree(st, profiles(tier)[shard[1]], depth, shard[2])
     elif shard[0] == "bfs":
         run_bfs(st, profiles(tier)[shard[1]], d["bfs"], shard[2])
